@@ -9,10 +9,14 @@ for sid in sorted(os.listdir('/verif/seeded')):
     prop=json.load(open(d+'/meta.json'))['property']
     if subprocess.run(['git','-C','/repo','apply',d+'/patch.diff']).returncode!=0:
         rows.append((sid,prop,'patch does not apply',[])); continue
+    import tempfile,shutil
+    T=tempfile.mkdtemp(prefix='lhv-seedtab.',dir='/tmp')
+    shutil.copy('/verif/known_findings.json',T); shutil.copy('/verif/properties.jsonl',T); shutil.copytree('/verif/contracts',T+'/contracts')
     try:
-        out=subprocess.run(['./bin/lhv','check','--property',prop],cwd='/verif',capture_output=True,text=True).stdout
+        out=subprocess.run(['./bin/lhv','check','--verif',T,'--property',prop],cwd='/verif',capture_output=True,text=True).stdout
     finally:
         subprocess.run(['git','-C','/repo','apply','-R',d+'/patch.diff'])
+        shutil.rmtree(T,ignore_errors=True)
     obls=re.findall(r'obligation=(\S+)',out)
     m=re.search(r'SUMMARY.*',out)
     rows.append((sid,prop,m.group(0) if m else 'no summary',obls))
